@@ -9,14 +9,16 @@
   What remains are premises about the run: the bytes decode to `m` (`DecodesTo`); the edits are `Representable`; no `//` in
   the two file names (finding F16) of the EDITED map (survival) resp. of the decoded map (frame clauses, which compare with
   the unedited round trip); the encoder's two list blocks are LF-free record lines (`ListBlockShape`).
-  `edits_roundtrip_decoded_rep` (frame edits, hit objects and control points in the frame) additionally needs the cross-codec
-  law `SliderRt.CoordLaws Float Float32` of `MapLaws` — see the note at `edits_roundtrip_decoded_rep_float`.
+  `edits_roundtrip_decoded_rep` (frame edits, hit objects and control points in the frame) takes `MapLaws`, whose fourth field
+  `SliderRt.CoordLaws Float Float32` (cross-codec law for path coordinates) is proved in Lemmas/FloatCoordLaws.lean; its remaining
+  premises are representability of the decoded map's two LIST blocks (`RepTimingMap`, `RepObject`).
   The last section edits a decoded hostile file with the real instances and re-reads it in the kernel.
 -/
 import RosuModel.Props.C03Decoded
 import RosuModel.Props.C02CodecIeee
 import RosuModel.Props.C04Ieee
 import RosuModel.Props.C04DecodedIeee
+import RosuModel.Lemmas.FloatCoordLaws
 namespace Rosu.C03
 open Rosu Encode EncodeLines C11 RtFile FrameEnc FrameDec Scalar DecodedInv
 open _root_.Rosu.C04 (IeeeRep64 IeeeRep32)
@@ -152,23 +154,22 @@ theorem edit_frame_decoded_float (bytes : List UInt8) (m : Beatmap Float Float32
     bytes m hdec (floatsRep_of_decodesTo_float bytes m hdec) hds e he (codecRep_of_representable_float e he) T H T0 H0
     hT hH sT sH hT0 hH0 sT0 sH0
 
-/-! ### frame edits with hit objects and control points in the frame: one cross-codec law remains -/
+/-! ### frame edits with hit objects and control points in the frame -/
 
-/-- `MapLaws` for the driver's instances from the one law of it that is not yet a theorem here: `SliderRt.CoordLaws` — an
-integral `f32` coordinate within ±131072, written with `f32`'s `Display` and read with `f64`'s `FromStr`, truncates to the
-same integer, and its text does not start with a letter. (True of IEEE: such an `f32` prints as its decimal integer, which
-`f64` reads exactly. Its proof needs the bit pattern of `Float32.ofInt` — the `f32` analogue of `FM.float_ofInt_bits` — and is
-not a consequence of the codec laws and order facts; the other three fields are discharged.) -/
-theorem mapLaws_float_of_coordLaws (LC : SliderRt.CoordLaws Float Float32 IeeeRep32) :
-    MapLaws Float Float32 IeeeRep64 IeeeRep32 :=
-  ⟨C02.codecLaws_float_ieee, C02.codecLaws_float32_ieee, C02.intPrintLaw_float_ieee, LC⟩
+/-- **`MapLaws` for the driver's instances** — all four fields are theorems: the codec laws of both types and `IntPrintLaw`
+(Props/C02CodecIeee.lean), and the cross-codec law for path coordinates `SliderRt.CoordLaws` (`FCO.coordLaws_float`,
+Lemmas/FloatCoordLaws.lean: an integral `f32` coordinate within ±131072 prints as its decimal integer, which `f64`'s `FromStr`
+reads exactly; needs the bit pattern of `Float32.ofInt`, `FM.float32_ofInt_bits`). -/
+theorem mapLaws_float : MapLaws Float Float32 IeeeRep64 IeeeRep32 :=
+  ⟨C02.codecLaws_float_ieee, C02.codecLaws_float32_ieee, C02.intPrintLaw_float_ieee, FCO.coordLaws_float⟩
 
 /-- **edits_roundtrip_decoded_rep** for `f64` / `f32` — frame edits (everything but mode, slider multiplier, tick rate,
 breaks) of a decoded map whose LIST blocks are representable (`RepTimingMap`, `RepObject`) and whose encoding succeeds:
 encoding the edited map succeeds; both texts are read back; the edited fields show the edited values; every untouched
 record field reads as in the unedited round trip; the hit-object / control-point part of the decoder state is the same, with
-the same finalised hit objects and control points (or the same failure). Of the law hypotheses only `CoordLaws` remains. -/
-theorem edits_roundtrip_decoded_rep_float (LC : SliderRt.CoordLaws Float Float32 IeeeRep32)
+the same finalised hit objects and control points (or the same failure). No law hypothesis; `RepTimingMap` / `RepObject` are
+premises about the decoded map (false in general: findings F17, F18, F20, F21, F22). -/
+theorem edits_roundtrip_decoded_rep_float
     (bytes : List UInt8) (m : Beatmap Float Float32) (hdec : DecodesTo bytes m) (hds : NoDoubleSlash m)
     (htim : RtTiming.RepTimingMap IeeeRep64 m)
     (hobj : ∀ h ∈ m.hitObjects, SliderRt.RepObject IeeeRep64 IeeeRep32 m.general.mode h)
@@ -181,7 +182,7 @@ theorem edits_roundtrip_decoded_rep_float (LC : SliderRt.CoordLaws Float Float32
         (∀ e' ∈ post, e'.touches e.field = false) → e.field.get (recView st') = e.shown (applyEdits pre m)) ∧
       (∀ f : Field, (∀ e ∈ es, e.touches f = false) → f.get (recView st') = f.get (recView st0)) ∧
       objView st' = objView st0 ∧ st'.finish.map listView = st0.finish.map listView :=
-  edits_roundtrip_decoded_rep C04.constFacts_float (mapLaws_float_of_coordLaws LC) bytes m hdec
+  edits_roundtrip_decoded_rep C04.constFacts_float mapLaws_float bytes m hdec
     (floatsRep_of_decodesTo_float bytes m hdec) hds htim hobj es (edits_codecRep_float es hes) hfr t0 h0
 
 end
@@ -303,5 +304,108 @@ theorem f16F_repaired :
     (fun _ h => absurd h List.not_mem_nil) (fun _ h => absurd h List.not_mem_nil)
   simp only [Edit.field, Field.get, Edit.shown, FieldVal.text.injEq] at h3
   exact ⟨t, st', h1, h2, h3⟩
+
+/-! ### non-vacuity with list blocks on the real instances: a decoded map with a timing point and a hit object -/
+
+set_option maxRecDepth 100000
+
+/-- the hostile file with a timing point and a circle (`sample2Lines`, Props/C03Decoded.lean), decoded with the real instances. -/
+def sample2StateF : BeatmapState Float Float32 := frame beatmapDecoder sample2Lines
+def sample2MapF : Beatmap Float Float32 :=
+  match sample2StateF.finish with | .ok m => m | .error _ => C04.noObjectsMap sample2StateF
+
+theorem sample2F_decodes :
+    decodeBytes (beatmapDecoder : LineDecoder (BeatmapState Float Float32)) (utf8Encode sample2Text) = .ok sample2StateF := by
+  rw [RtFile.decodeBytes_utf8_text _ _ (by decide), sample2_lines]
+  rfl
+
+theorem sample2F_finishes : sample2StateF.finish = .ok sample2MapF := by
+  have hok : sample2StateF.finish.toOption.isSome = true := by decide +kernel
+  unfold sample2MapF
+  cases h : sample2StateF.finish with
+  | error e => rw [h] at hok; cases hok
+  | ok m => rfl
+
+theorem sample2F_decodesTo : DecodesTo (utf8Encode sample2Text) sample2MapF := ⟨_, sample2F_decodes, sample2F_finishes⟩
+
+theorem sample2F_objects : sample2MapF.hitObjects =
+    [⟨1000, .circle ⟨⟨256, 192⟩, true, 0⟩, sample2Samples⟩] := by with_unfolding_all rfl
+
+
+theorem sample2F_controlPoints : sample2MapF.controlPoints =
+    { timingPoints := [⟨0, 500, false, ⟨4⟩⟩], samplePoints := [⟨0, .normal, 100, 0⟩] } := by with_unfolding_all rfl
+
+theorem sample2F_collect : collectSamples sample2MapF = .ok sample2MapF.controlPoints := by
+  with_unfolding_all rfl
+
+theorem sample2F_mode : sample2MapF.general.mode = GameMode.osu := by with_unfolding_all rfl
+
+/- decidability of the representability predicates at the real instances (comparisons of `Float.Model`), for `decide +kernel`. -/
+attribute [local instance] decInLimit
+local instance : DecidablePred IeeeRep64 := fun x => inferInstanceAs (Decidable (x.isNaN = false))
+local instance : DecidablePred IeeeRep32 := fun x => inferInstanceAs (Decidable (x.isNaN = false))
+
+local instance (b : Float) : Decidable (RtTiming.BeatLimit b) := by unfold RtTiming.BeatLimit; infer_instance
+local instance (v : Float) : Decidable (RtTiming.SvOk IeeeRep64 v) := by unfold RtTiming.SvOk; infer_instance
+
+theorem sample2F_timing : RtTiming.RepTimingMap IeeeRep64 sample2MapF where
+  sig := by rw [sample2F_controlPoints]; decide +kernel
+  sv := by rw [sample2F_controlPoints, sample2F_mode]; decide +kernel
+  timing := by rw [sample2F_controlPoints]; decide +kernel
+  difficulty := by rw [sample2F_controlPoints]; decide +kernel
+  effect := by rw [sample2F_controlPoints]; decide +kernel
+  samples := by
+    intro cp hc
+    rw [sample2F_collect] at hc
+    cases hc
+    rw [sample2F_controlPoints]
+    decide +kernel
+
+theorem sample2F_objects_rep :
+    ∀ h ∈ sample2MapF.hitObjects, SliderRt.RepObject IeeeRep64 IeeeRep32 sample2MapF.general.mode h := by
+  intro h hh
+  rw [sample2F_objects, List.mem_singleton] at hh
+  subst hh
+  exact .circle _ rfl ⟨⟨by decide +kernel, by decide +kernel, by decide +kernel⟩,
+    ⟨by decide +kernel, by decide +kernel, by decide +kernel⟩, ⟨by decide +kernel, by decide +kernel⟩, by decide,
+    sample2_samples_rep _⟩
+
+theorem sample2F_noDoubleSlash : NoDoubleSlash sample2MapF := ⟨by with_unfolding_all decide, by with_unfolding_all decide⟩
+
+theorem sample2F_encodes : ∃ t0, encode sample2MapF = .ok t0 := by
+  have h : (encode sample2MapF).toOption.isSome = true := by decide +kernel
+  cases h' : encode sample2MapF with
+  | error e => rw [h'] at h; cases h
+  | ok t => exact ⟨t, rfl⟩
+
+
+/-- twelve frame edits, four of them floats (`f32`: `7.5`, `0.3`; `f64`: `0.1`, `1.25`). -/
+def sample2EditsF : List (Edit Float Float32) :=
+  [.title (str "Re:Zero // x: y"), .tags (str "[HitObjects] osu file format v9"), .audioFile (str "dir/new song.mp3"),
+   .backgroundFile (str "dir/bg 2.png"), .previewTime (-5), .hpDrainRate 7.5, .stackLeniency 0.3, .timelineZoom 0.1,
+   .distanceSpacing 1.25, .bookmarks [0, -5, 2147483647, -2147483648],
+   .comboColors [⟨10, 20, 30, 255⟩, ⟨255, 0, 128, 255⟩], .customColor (str "foo bar") ⟨1, 1, 1, 255⟩]
+
+theorem sample2EditsF_representable : ∀ e ∈ sample2EditsF, e.Representable := by decide +kernel
+
+/-- every premise of `edits_roundtrip_decoded_rep_float` holds of the decoded sample and these edits: the conclusion — edited
+values shown, untouched fields as in the unedited round trip, same hit objects and control points — holds of them. -/
+example (t0 : Str) (h0 : encode sample2MapF = .ok t0) :=
+  edits_roundtrip_decoded_rep_float _ _ sample2F_decodesTo sample2F_noDoubleSlash
+    sample2F_timing sample2F_objects_rep sample2EditsF sample2EditsF_representable (by decide) t0 h0
+
+/-- the same run evaluated by the kernel on the model's own functions with the real instances: edited numbers bit for bit, the
+untouched slider multiplier (clamped to `3.6` when the file was first decoded), one hit object read back. -/
+theorem sample2F_reread_numbers :
+    C04.rereadWithF (applyEdits sample2EditsF sample2MapF) (fun st => decide (
+      st.hitObjects.timingPoints.general.previewTime = -5 ∧
+      st.hitObjects.difficulty.difficulty.hpDrainRate = 7.5 ∧
+      st.hitObjects.timingPoints.general.stackLeniency = 0.3 ∧
+      st.editor.timelineZoom = 0.1 ∧ st.editor.distanceSpacing = 1.25 ∧
+      st.hitObjects.difficulty.difficulty.sliderMultiplier = 3.6 ∧
+      st.hitObjects.core.hitObjects.length = 1 ∧
+      st.metadata.title = str "Re:Zero // x: y" ∧ st.hitObjects.timingPoints.general.audioFile = str "dir/new song.mp3" ∧
+      st.editor.bookmarks = [0, -5, 2147483647, -2147483648] ∧
+      st.colors.customColors = [⟨str "foo bar", ⟨1, 1, 1, 255⟩⟩])) = some true := by decide +kernel
 
 end Rosu.C03
